@@ -1,85 +1,509 @@
 import Abyss.Inv
 import Abyss.Lemmas.AllocL
 import Abyss.Lemmas.Vu64L
+import Mathlib.Data.List.Nodup
+import Mathlib.Data.List.Perm.Subperm
 /-!
 # Chains, lookup and the abstraction under the invariant (helper lemmas)
 -/
 namespace Abyss
 namespace Store
+variable {α : Type}
 
-/-- stored-key comparison decides equality on admissible keys -/
+/-! ## key comparison, chains -/
+
 theorem cmpKey_ok (kt : KeyType) (a b : List Nat) (ha : KeyOK kt a) (hb : KeyOK kt b) :
-    cmpKey kt a b = some (decide (a = b)) := by sorry
+    cmpKey kt a b = some (decide (a = b)) := by
+  by_cases hk : kt = .vu64
+  · subst hk
+    obtain ⟨x, hx, rfl⟩ := ha rfl
+    obtain ⟨y, hy, rfl⟩ := hb rfl
+    have := cmpKey_vu64 x y hx hy
+    unfold vu64Key at this
+    rw [this]
+    congr 1
+    apply decide_eq_decide.mpr
+    constructor
+    · intro h; rw [h]
+    · intro h; exact Vu64.encode_inj x y hx hy h
+  · exact cmpKey_bytes kt hk a b
 
-/-- more fuel does not change a chain that was found -/
+/-- unfolding lemma for `chainFrom` at a nonzero offset holding a used record -/
+theorem chainFrom_succ_used (kf : RecFile KeyRec) (fuel cur sz : Nat) (r : KeyRec)
+    (hc : cur ≠ 0) (hg : kf.get cur = some (.used sz r)) :
+    chainFrom kf (fuel+1) cur = (chainFrom kf fuel r.next).map ((cur, r) :: ·) := by
+  simp [chainFrom, hc, hg]
+
+/-- inversion of one `chainFrom` step -/
+theorem chainFrom_succ_inv (kf : RecFile KeyRec) (fuel cur : Nat) (l : List (Nat × KeyRec))
+    (h : chainFrom kf (fuel+1) cur = some l) :
+    (cur = 0 ∧ l = []) ∨
+    (cur ≠ 0 ∧ ∃ sz r t, kf.get cur = some (.used sz r) ∧ chainFrom kf fuel r.next = some t ∧ l = (cur, r) :: t) := by
+  unfold chainFrom at h
+  by_cases hc : cur = 0
+  · simp [hc] at h; exact Or.inl ⟨hc, h⟩
+  · right
+    refine ⟨hc, ?_⟩
+    simp only [hc, if_false] at h
+    cases hg : kf.get cur with
+    | none => simp [hg] at h
+    | some sl =>
+      cases sl with
+      | free a b => simp [hg] at h
+      | used sz r =>
+        simp only [hg] at h
+        cases ht : chainFrom kf fuel r.next with
+        | none => simp [ht] at h
+        | some t =>
+          simp [ht] at h
+          exact ⟨sz, r, t, rfl, ht, h.symm⟩
+
 theorem chainFrom_fuel (kf : RecFile KeyRec) (fuel fuel' cur : Nat) (l : List (Nat × KeyRec))
-    (h : chainFrom kf fuel cur = some l) (hf : fuel ≤ fuel') : chainFrom kf fuel' cur = some l := by sorry
+    (h : chainFrom kf fuel cur = some l) (hf : fuel ≤ fuel') : chainFrom kf fuel' cur = some l := by
+  induction fuel generalizing fuel' cur l with
+  | zero => simp [chainFrom] at h
+  | succ f ih =>
+    obtain _ | f' := fuel'
+    · omega
+    rcases chainFrom_succ_inv kf f cur l h with ⟨hc, hl⟩ | ⟨hc, sz, r, t, hg, ht, hl⟩
+    · subst hc hl; simp [chainFrom]
+    · rw [chainFrom_succ_used kf f' cur sz r hc hg, ih f' r.next t ht (by omega), hl]; rfl
 
-/-- a chain that exists is found with fuel `length + 1` -/
 theorem chainFrom_fuel_len (kf : RecFile KeyRec) (fuel cur : Nat) (l : List (Nat × KeyRec))
-    (h : chainFrom kf fuel cur = some l) : chainFrom kf (l.length + 1) cur = some l := by sorry
+    (h : chainFrom kf fuel cur = some l) : chainFrom kf (l.length + 1) cur = some l := by
+  induction fuel generalizing cur l with
+  | zero => simp [chainFrom] at h
+  | succ f ih =>
+    rcases chainFrom_succ_inv kf f cur l h with ⟨hc, hl⟩ | ⟨hc, sz, r, t, hg, ht, hl⟩
+    · subst hc hl; simp [chainFrom]
+    · subst hl
+      rw [List.length_cons, chainFrom_succ_used kf _ cur sz r hc hg, ih r.next t ht]; rfl
 
-/-- the members of a chain are used key records, linked in order, ending in 0 -/
+theorem used_of_get {α : Type} (f : RecFile α) (o sz : Nat) (p : α) (h : f.get o = some (.used sz p)) :
+    f.used o = some (sz, p) := by
+  simp [RecFile.used, h]
+
+theorem get_of_used {α : Type} (f : RecFile α) (o sz : Nat) (p : α) (h : f.used o = some (sz, p)) :
+    f.get o = some (.used sz p) := by
+  unfold RecFile.used at h
+  cases hg : f.get o with
+  | none => simp [hg] at h
+  | some sl =>
+    cases sl with
+    | free a b => simp [hg] at h
+    | used a b => simp [hg] at h; rw [h.1, h.2]
+
 theorem chainFrom_seg (kf : RecFile KeyRec) (fuel cur : Nat) (l : List (Nat × KeyRec))
-    (h : chainFrom kf fuel cur = some l) : segFrom kf l cur 0 := by sorry
+    (h : chainFrom kf fuel cur = some l) : segFrom kf l cur 0 := by
+  induction fuel generalizing cur l with
+  | zero => simp [chainFrom] at h
+  | succ f ih =>
+    rcases chainFrom_succ_inv kf f cur l h with ⟨hc, hl⟩ | ⟨hc, sz, r, t, hg, ht, hl⟩
+    · subst hc hl; simp [segFrom]
+    · subst hl
+      exact ⟨rfl, hc, ⟨sz, used_of_get kf cur sz r hg⟩, ih r.next t ht⟩
 
-/-- conversely, a segment that ends in 0 is a chain (with enough fuel) -/
 theorem chainFrom_of_seg (kf : RecFile KeyRec) (cur : Nat) (l : List (Nat × KeyRec))
-    (h : segFrom kf l cur 0) (fuel : Nat) (hf : l.length < fuel) : chainFrom kf fuel cur = some l := by sorry
+    (h : segFrom kf l cur 0) (fuel : Nat) (hf : l.length < fuel) : chainFrom kf fuel cur = some l := by
+  induction l generalizing cur fuel with
+  | nil =>
+    obtain _ | f := fuel
+    · simp at hf
+    · simp only [segFrom] at h; subst h; simp [chainFrom]
+  | cons p t ih =>
+    obtain ⟨o, r⟩ := p
+    obtain _ | f := fuel
+    · simp at hf
+    obtain ⟨hc, ho, ⟨sz, hu⟩, ht⟩ := h
+    subst hc
+    rw [chainFrom_succ_used kf f cur sz r ho (get_of_used kf cur sz r hu),
+      ih r.next ht f (by simpa using hf)]; rfl
 
-/-- a chain does not depend on slots that are not on it -/
 theorem chainFrom_congr (kf kf' : RecFile KeyRec) (fuel cur : Nat) (l : List (Nat × KeyRec))
     (h : chainFrom kf fuel cur = some l)
-    (hsame : ∀ p ∈ l, kf'.get p.1 = kf.get p.1) : chainFrom kf' fuel cur = some l := by sorry
+    (hsame : ∀ p ∈ l, kf'.get p.1 = kf.get p.1) : chainFrom kf' fuel cur = some l := by
+  induction fuel generalizing cur l with
+  | zero => simp [chainFrom] at h
+  | succ f ih =>
+    rcases chainFrom_succ_inv kf f cur l h with ⟨hc, hl⟩ | ⟨hc, sz, r, t, hg, ht, hl⟩
+    · subst hc hl; simp [chainFrom]
+    · subst hl
+      have h1 : kf'.get cur = some (.used sz r) := by
+        rw [hsame (cur, r) (by simp)]; exact hg
+      rw [chainFrom_succ_used kf' f cur sz r hc h1,
+        ih r.next t ht (fun p hp => hsame p (by simp [hp]))]; rfl
 
-/-- a duplicate-free list of offsets of slots is no longer than the slot list -/
+theorem mem_of_aget {β : Type} (l : List (Nat × β)) (o : Nat) (b : β) (h : aget l o = some b) :
+    (o, b) ∈ l := by
+  induction l with
+  | nil => simp [aget] at h
+  | cons p t ih =>
+    obtain ⟨k, v⟩ := p
+    unfold aget at h
+    by_cases hk : k = o
+    · simp [hk] at h; subst hk h; simp
+    · simp [hk] at h; exact List.mem_cons_of_mem _ (ih h)
+
 theorem nodup_offsets_length (kf : RecFile KeyRec) (l : List (Nat × KeyRec))
     (hn : (l.map (·.1)).Nodup) (hu : ∀ p ∈ l, ∃ sz, kf.used p.1 = some (sz, p.2)) :
-    l.length ≤ kf.slots.length := by sorry
+    l.length ≤ kf.slots.length := by
+  have hsub : l.map (·.1) ⊆ kf.slots.map (·.1) := by
+    intro o ho
+    obtain ⟨p, hp, rfl⟩ := List.mem_map.mp ho
+    obtain ⟨sz, hs⟩ := hu p hp
+    have := mem_of_aget kf.slots p.1 _ (get_of_used kf p.1 sz p.2 hs)
+    exact List.mem_map.mpr ⟨_, this, rfl⟩
+  have := (List.subperm_of_subset hn hsub).length_le
+  simpa using this
 
-/-- membership in the abstraction -/
+/-! ## tiled slot lists, the abstraction -/
+
+
+theorem tiled_ge {l : List (Nat × Slot α)} {a b : Nat} (h : Tiled l a b) :
+    ∀ p ∈ l, a ≤ p.1 := by
+  induction l generalizing a with
+  | nil => simp
+  | cons q t ih =>
+    obtain ⟨o, s⟩ := q
+    obtain ⟨ho, hs, ht⟩ := h
+    intro p hp
+    rcases List.mem_cons.mp hp with rfl | hp
+    · simp [ho]
+    · have := ih ht p hp; omega
+
+theorem tiled_aget {l : List (Nat × Slot α)} {a b : Nat} (h : Tiled l a b) (o : Nat) (sl : Slot α)
+    (hm : (o, sl) ∈ l) : aget l o = some sl := by
+  induction l generalizing a with
+  | nil => simp at hm
+  | cons q t ih =>
+    obtain ⟨o0, s0⟩ := q
+    obtain ⟨ho, hs, ht⟩ := h
+    rcases List.mem_cons.mp hm with heq | hp
+    · cases heq; simp [aget]
+    · have := tiled_ge ht _ hp
+      have hne : o0 ≠ o := by simp at this; omega
+      simp [aget, hne, ih ht hp]
+
+theorem tiled_pairwise {l : List (Nat × Slot α)} {a b : Nat} (h : Tiled l a b) :
+    l.Pairwise (fun p q => p.1 ≠ q.1) := by
+  induction l generalizing a with
+  | nil => simp
+  | cons q t ih =>
+    obtain ⟨o0, s0⟩ := q
+    obtain ⟨ho, hs, ht⟩ := h
+    refine List.Pairwise.cons ?_ (ih ht)
+    intro p hp
+    have := tiled_ge ht p hp
+    simp; omega
+
+/-- a slot listed in a well-formed key file is the slot found at its offset -/
+theorem get_of_mem_slots {c : FileCfg} {f : RecFile α} (h : RecFile.WF c f) (o : Nat) (sl : Slot α)
+    (hm : (o, sl) ∈ f.slots) : f.get o = some sl := tiled_aget h.tiled o sl hm
+
+theorem mem_slots_of_get (f : RecFile α) (o : Nat) (sl : Slot α) (h : f.get o = some sl) :
+    (o, sl) ∈ f.slots := mem_of_aget f.slots o sl h
+
+/-- the function `abs` maps over the key slots -/
+def absF (s : Store) (p : Nat × Slot KeyRec) : Option (List Nat × List Nat) :=
+  match p.2 with
+  | .used _ r => (s.vf.used r.valOff).map fun sv => (r.key, sv.2)
+  | .free _ _ => none
+
+theorem abs_eq (s : Store) : abs s = s.kf.slots.filterMap (absF s) := rfl
+
+theorem absF_some (s : Store) (p : Nat × Slot KeyRec) (k v : List Nat) :
+    absF s p = some (k, v) ↔ ∃ sz r vs, p.2 = .used sz r ∧ r.key = k ∧ s.vf.used r.valOff = some (vs, v) := by
+  obtain ⟨o, sl⟩ := p
+  cases sl with
+  | free a b => simp [absF]
+  | used sz r =>
+    simp only [absF, Option.map_eq_some_iff]
+    constructor
+    · rintro ⟨⟨vs, v'⟩, h1, h2⟩
+      simp at h2
+      exact ⟨sz, r, vs, rfl, h2.1, by rw [h1, h2.2]⟩
+    · rintro ⟨sz', r', vs, h1, h2, h3⟩
+      cases h1
+      exact ⟨(vs, v), h3, by simp [h2]⟩
+
 theorem abs_mem_iff {kt : KeyType} {s : Store} {x : Nat} (h : InvX kt s x) (k v : List Nat) :
-    (k, v) ∈ abs s ↔ ∃ vo vs, HasKV s k vo ∧ s.vf.used vo = some (vs, v) := by sorry
+    (k, v) ∈ abs s ↔ ∃ vo vs, HasKV s k vo ∧ s.vf.used vo = some (vs, v) := by
+  rw [abs_eq, List.mem_filterMap]
+  constructor
+  · rintro ⟨⟨o, sl⟩, hm, hf⟩
+    obtain ⟨sz, r, vs, h1, h2, h3⟩ := (absF_some s _ k v).mp hf
+    simp only at h1; subst h1
+    exact ⟨r.valOff, vs, ⟨o, sz, r, used_of_get _ _ _ _ (get_of_mem_slots h.kwf o _ hm), h2, rfl⟩, h3⟩
+  · rintro ⟨vo, vs, ⟨o, sz, r, hu, hk, hvo⟩, hv⟩
+    refine ⟨(o, .used sz r), mem_slots_of_get _ _ _ (get_of_used _ _ _ _ hu), ?_⟩
+    exact (absF_some s _ k v).mpr ⟨sz, r, vs, rfl, hk, by rw [hvo]; exact hv⟩
 
-theorem abs_nodup {kt : KeyType} {s : Store} {x : Nat} (h : InvX kt s x) : Spec.NodupKeys (abs s) := by sorry
+theorem abs_nodup {kt : KeyType} {s : Store} {x : Nat} (h : InvX kt s x) : Spec.NodupKeys (abs s) := by
+  unfold Spec.NodupKeys
+  rw [abs_eq, List.map_filterMap]
+  have hp := List.Pairwise.and_mem.mp (tiled_pairwise h.kwf.tiled)
+  refine List.Pairwise.filterMap _ ?_ hp
+  rintro ⟨o, sl⟩ ⟨o', sl'⟩ ⟨hm, hm', hne⟩ k hk k' hk' hkk
+  subst hkk
+  simp only [Option.map_eq_some_iff] at hk hk'
+  obtain ⟨⟨k1, v⟩, hf, rfl⟩ := hk
+  obtain ⟨⟨k2, v'⟩, hf', hk2⟩ := hk'
+  simp only at hk2; subst hk2
+  obtain ⟨sz, r, vs, h1, h2, h3⟩ := (absF_some s _ _ _).mp hf
+  obtain ⟨sz', r', vs', h1', h2', h3'⟩ := (absF_some s _ _ _).mp hf'
+  simp only at h1 h1'; subst h1 h1'
+  exact hne (h.keys_inj o o' sz sz' r r' (used_of_get _ _ _ _ (get_of_mem_slots h.kwf _ _ hm))
+    (used_of_get _ _ _ _ (get_of_mem_slots h.kwf _ _ hm')) (h2.trans h2'.symm))
+
+theorem spec_get_none (m : Spec.Map) (k : List Nat) :
+    Spec.get m k = none ↔ ∀ v, (k, v) ∉ m := by
+  unfold Spec.get
+  rw [Option.map_eq_none_iff, List.find?_eq_none]
+  constructor
+  · intro h v hm; exact h (k, v) hm (by simp)
+  · rintro h ⟨k', v⟩ hm hk
+    simp at hk; subst hk; exact h v hm
+
+theorem spec_get_some (m : Spec.Map) (hn : Spec.NodupKeys m) (k v : List Nat) :
+    Spec.get m k = some v ↔ (k, v) ∈ m := by
+  induction m with
+  | nil => simp [Spec.get]
+  | cons p t ih =>
+    obtain ⟨k0, v0⟩ := p
+    unfold Spec.NodupKeys at hn
+    simp only [List.map_cons, List.nodup_cons] at hn
+    have ih' := ih hn.2
+    unfold Spec.get at ih' ⊢
+    by_cases hk : k0 = k
+    · subst hk
+      simp only [List.find?_cons, decide_true, Option.map_some, Option.some.injEq, List.mem_cons, Prod.mk.injEq, true_and]
+      constructor
+      · intro h; exact Or.inl h.symm
+      · rintro (h | h)
+        · exact h.symm
+        · exact absurd (List.mem_map.mpr ⟨_, h, rfl⟩) hn.1
+    · simp only [List.find?_cons, hk, decide_false, List.mem_cons, Prod.mk.injEq]
+      rw [ih']
+      constructor
+      · intro h; exact Or.inr h
+      · rintro (h | h)
+        · exact absurd h.1.symm hk
+        · exact h
 
 theorem abs_get_some {kt : KeyType} {s : Store} {x : Nat} (h : InvX kt s x) (k v : List Nat) :
-    Spec.get (abs s) k = some v ↔ ∃ vo vs, HasKV s k vo ∧ s.vf.used vo = some (vs, v) := by sorry
+    Spec.get (abs s) k = some v ↔ ∃ vo vs, HasKV s k vo ∧ s.vf.used vo = some (vs, v) := by
+  rw [spec_get_some _ (abs_nodup h), abs_mem_iff h]
 
 theorem abs_get_none {kt : KeyType} {s : Store} {x : Nat} (h : InvX kt s x) (k : List Nat) :
-    Spec.get (abs s) k = none ↔ ∀ o sz r, s.kf.used o = some (sz, r) → r.key ≠ k := by sorry
+    Spec.get (abs s) k = none ↔ ∀ o sz r, s.kf.used o = some (sz, r) → r.key ≠ k := by
+  rw [spec_get_none]
+  constructor
+  · intro hno o sz r hu hk
+    obtain ⟨vs, v, hv⟩ := h.val_used o sz r hu
+    exact hno v ((abs_mem_iff h k v).mpr ⟨r.valOff, vs, ⟨o, sz, r, hu, hk, rfl⟩, hv⟩)
+  · intro hno v hm
+    obtain ⟨vo, vs, ⟨o, sz, r, hu, hk, _⟩, _⟩ := (abs_mem_iff h k v).mp hm
+    exact hno o sz r hu hk
 
-theorem abs_len {kt : KeyType} {s : Store} {x : Nat} (h : InvX kt s x) : Spec.len (abs s) = s.count := by sorry
+theorem length_filterMap_eq_filter {β γ : Type} (f : β → Option γ) (g : β → Bool) (l : List β)
+    (hfg : ∀ p ∈ l, (f p).isSome = g p) : (l.filterMap f).length = (l.filter g).length := by
+  induction l with
+  | nil => simp
+  | cons p t ih =>
+    have h1 := hfg p (by simp)
+    have ih' := ih (fun q hq => hfg q (by simp [hq]))
+    cases hf : f p with
+    | none =>
+      rw [hf] at h1
+      simp [hf, ← h1, ih']
+    | some y =>
+      rw [hf] at h1
+      simp [hf, ← h1, ih']
 
-/-- two states whose used key records carry the same (key, value offset) pairs and whose value
-files hold the same used records have equivalent abstractions -/
+theorem abs_len {kt : KeyType} {s : Store} {x : Nat} (h : InvX kt s x) : Spec.len (abs s) = s.count := by
+  rw [h.count_ok, Spec.len, abs_eq]
+  apply length_filterMap_eq_filter
+  rintro ⟨o, sl⟩ hm
+  cases sl with
+  | free a b => simp [absF]
+  | used sz r =>
+    obtain ⟨vs, v, hv⟩ := h.val_used o sz r (used_of_get _ _ _ _ (get_of_mem_slots h.kwf _ _ hm))
+    simp [absF, hv]
+
 theorem abs_equiv_of_same {kt : KeyType} {s s' : Store} {x x' : Nat} (h : InvX kt s x) (h' : InvX kt s' x')
     (hkv : ∀ k vo, HasKV s' k vo ↔ HasKV s k vo) (hv : ∀ vo, s'.vf.used vo = s.vf.used vo) :
-    Spec.Equiv (abs s') (abs s) := by sorry
+    Spec.Equiv (abs s') (abs s) := by
+  refine ⟨abs_nodup h', abs_nodup h, fun k => ?_⟩
+  apply Option.ext
+  intro v
+  rw [abs_get_some h', abs_get_some h]
+  constructor
+  · rintro ⟨vo, vs, h1, h2⟩; exact ⟨vo, vs, (hkv k vo).mp h1, by rw [← hv]; exact h2⟩
+  · rintro ⟨vo, vs, h1, h2⟩; exact ⟨vo, vs, (hkv k vo).mpr h1, by rw [hv]; exact h2⟩
 
-/-- `find`: either the key is found at a position of its bucket's chain — with `prev` the offset
-of the record in front of it, or 0 if it is the first — or no used key record holds it. -/
+/-! ## lookup -/
+
+theorem getLast_cons_getD (p : Nat × KeyRec) (t : List (Nat × KeyRec)) (prev : Nat) :
+    (((p :: t).getLast?).map (·.1)).getD prev = ((t.getLast?).map (·.1)).getD p.1 := by
+  cases t with
+  | nil => simp
+  | cons q t' =>
+    cases hl : (q :: t').getLast? with
+    | none => simp at hl
+    | some z => simp [List.getLast?_cons_cons, hl]
+
+/-- the members of a link segment are used key records -/
+theorem seg_used (kf : RecFile KeyRec) (l : List (Nat × KeyRec)) (cur tgt : Nat)
+    (h : segFrom kf l cur tgt) : ∀ p ∈ l, ∃ sz, kf.used p.1 = some (sz, p.2) := by
+  induction l generalizing cur with
+  | nil => simp
+  | cons q t ih =>
+    obtain ⟨o, r⟩ := q
+    obtain ⟨_, _, hu, ht⟩ := h
+    intro p hp
+    rcases List.mem_cons.mp hp with rfl | hp
+    · exact hu
+    · exact ih _ ht p hp
+
+/-- `findLoop` along a chain: it stops at the first member holding `k` (with `prev` the member
+in front of it), or reports absence when no member holds `k`. -/
+theorem findLoop_seg (kt : KeyType) (kf : RecFile KeyRec) (k : List Nat) (hk : KeyOK kt k)
+    (l : List (Nat × KeyRec)) (cur prev fuel : Nat)
+    (hseg : segFrom kf l cur 0) (hok : ∀ p ∈ l, KeyOK kt p.2.key) (hf : l.length < fuel) :
+    (∃ l1 o r l2, l = l1 ++ (o, r) :: l2 ∧ r.key = k ∧ (∀ p ∈ l1, p.2.key ≠ k) ∧
+        findLoop kt kf k fuel cur prev = some (some (o, ((l1.getLast?).map (·.1)).getD prev))) ∨
+    ((∀ p ∈ l, p.2.key ≠ k) ∧ findLoop kt kf k fuel cur prev = some none) := by
+  induction l generalizing cur prev fuel with
+  | nil =>
+    obtain _ | f := fuel
+    · simp at hf
+    simp only [segFrom] at hseg
+    right; simp [findLoop, hseg]
+  | cons q t ih =>
+    obtain ⟨o, r⟩ := q
+    obtain _ | f := fuel
+    · simp at hf
+    obtain ⟨hc, ho, ⟨sz, hu⟩, ht⟩ := hseg
+    subst hc
+    have hg := get_of_used kf cur sz r hu
+    have hcmp := cmpKey_ok kt k r.key hk (hok (cur, r) (by simp))
+    by_cases hkr : k = r.key
+    · left
+      have hcmp' : cmpKey kt k r.key = some true := by rw [hcmp]; simp [hkr]
+      refine ⟨[], cur, r, t, rfl, hkr.symm, by simp, ?_⟩
+      simp [findLoop, ho, hg, hcmp']
+    · have hcmp' : cmpKey kt k r.key = some false := by rw [hcmp]; simp [hkr]
+      have hstep : findLoop kt kf k (f+1) cur prev = findLoop kt kf k f r.next cur := by
+        simp [findLoop, ho, hg, hcmp']
+      rw [hstep]
+      rcases ih r.next cur f ht (fun p hp => hok p (by simp [hp])) (by simpa using hf) with
+        ⟨l1, o', r', l2, hl, hk', hno, hfind⟩ | ⟨hno, hfind⟩
+      · left
+        refine ⟨(cur, r) :: l1, o', r', l2, by simp [hl], hk', ?_, ?_⟩
+        · intro p hp
+          rcases List.mem_cons.mp hp with rfl | hp
+          · exact fun h => hkr h.symm
+          · exact hno p hp
+        · rw [hfind, getLast_cons_getD]
+      · right
+        refine ⟨?_, hfind⟩
+        intro p hp
+        rcases List.mem_cons.mp hp with rfl | hp
+        · exact fun h => hkr h.symm
+        · exact hno p hp
+
+/-- offsets of used key records are not 0 -/
+theorem used_ne_zero {kt : KeyType} {s : Store} {x : Nat} (h : InvX kt s x) {o sz : Nat} {r : KeyRec}
+    (hu : s.kf.used o = some (sz, r)) : o ≠ 0 := by
+  have := (RecFile.WF.get_bounds keyCfg_ok h.kwf (get_of_used _ _ _ _ hu)).1
+  have := keyCfg_ok.hdr_pos
+  omega
+
 theorem find_spec {kt : KeyType} {s : Store} (h : Inv kt s) (k : List Nat) (hk : KeyOK kt k) :
     (∃ o sz r l1 l2, find kt s k = some (some (o, ((l1.getLast?).map (·.1)).getD 0)) ∧
         s.kf.used o = some (sz, r) ∧ r.key = k ∧
         s.chain (bucketOf k s.n) = some (l1 ++ (o, r) :: l2)) ∨
-    (find kt s k = some none ∧ ∀ o sz r, s.kf.used o = some (sz, r) → r.key ≠ k) := by sorry
+    (find kt s k = some none ∧ ∀ o sz r, s.kf.used o = some (sz, r) → r.key ≠ k) := by
+  obtain ⟨l, hchain, hnodup, hbucket⟩ := h.chains (bucketOf k s.n) (Nat.mod_lt _ h.npos)
+  have hseg := chainFrom_seg _ _ _ _ hchain
+  have hused := seg_used _ _ _ _ hseg
+  have hlen := nodup_offsets_length s.kf l hnodup hused
+  have hok : ∀ p ∈ l, KeyOK kt p.2.key := fun p hp => by
+    obtain ⟨sz, hu⟩ := hused p hp
+    exact h.keys_ok p.1 sz p.2 hu
+  rcases findLoop_seg kt s.kf k hk l (s.headOf (bucketOf k s.n)) 0 (s.kf.slots.length + 1) hseg hok
+      (by omega) with ⟨l1, o, r, l2, hl, hkr, _, hfind⟩ | ⟨hno, hfind⟩
+  · left
+    obtain ⟨sz, hu⟩ := hused (o, r) (by simp [hl])
+    exact ⟨o, sz, r, l1, l2, hfind, hu, hkr, by rw [hchain, hl]⟩
+  · right
+    refine ⟨hfind, ?_⟩
+    intro o sz r hu hkr
+    obtain ⟨l', hl', hm⟩ := h.on_chain o sz r hu (used_ne_zero h hu)
+    rw [hkr, hchain] at hl'
+    cases hl'
+    exact hno (o, r) hm hkr
 
-/-- `get` returns what the ideal map returns -/
 theorem get_spec {kt : KeyType} {s : Store} (h : Inv kt s) (k : List Nat) (hk : KeyOK kt k) :
-    s.get kt k = some (Spec.get (abs s) k) := by sorry
+    s.get kt k = some (Spec.get (abs s) k) := by
+  rcases find_spec h k hk with ⟨o, sz, r, l1, l2, hfind, hu, hkr, _⟩ | ⟨hfind, hno⟩
+  · obtain ⟨vs, v, hv⟩ := h.val_used o sz r hu
+    have h1 : Spec.get (abs s) k = some v :=
+      (abs_get_some h k v).mpr ⟨r.valOff, vs, ⟨o, sz, r, hu, hkr, rfl⟩, hv⟩
+    have h2 : s.loadValue o = some v := by
+      simp [loadValue, get_of_used _ _ _ _ hu, get_of_used _ _ _ _ hv]
+    simp [Store.get, hfind, h1, h2]
+  · have h1 : Spec.get (abs s) k = none := (abs_get_none h k).mpr hno
+    simp [Store.get, hfind, h1]
 
-/-- `includes_key` returns what the ideal map returns -/
 theorem includes_spec {kt : KeyType} {s : Store} (h : Inv kt s) (k : List Nat) (hk : KeyOK kt k) :
-    s.includes kt k = some (Spec.includes (abs s) k) := by sorry
+    s.includes kt k = some (Spec.includes (abs s) k) := by
+  rcases find_spec h k hk with ⟨o, sz, r, l1, l2, hfind, hu, hkr, _⟩ | ⟨hfind, hno⟩
+  · obtain ⟨vs, v, hv⟩ := h.val_used o sz r hu
+    have h1 : Spec.get (abs s) k = some v :=
+      (abs_get_some h k v).mpr ⟨r.valOff, vs, ⟨o, sz, r, hu, hkr, rfl⟩, hv⟩
+    simp [Store.includes, Spec.includes, hfind, h1]
+  · have h1 : Spec.get (abs s) k = none := (abs_get_none h k).mpr hno
+    simp [Store.includes, Spec.includes, hfind, h1]
 
-/-- the walk of `relink` finds the last record of the leading segment (0 if it is empty) -/
+/-! ## relink walk, initial state -/
+
 theorem predLoop_spec (kf : RecFile KeyRec) (l1 : List (Nat × KeyRec)) (cur old prev fuel : Nat)
     (hseg : segFrom kf l1 cur old) (hold : old ≠ 0) (hne : ∀ p ∈ l1, p.1 ≠ old) (hf : l1.length < fuel) :
-    predLoop kf old fuel cur prev = some (((l1.getLast?).map (·.1)).getD prev) := by sorry
+    predLoop kf old fuel cur prev = some (((l1.getLast?).map (·.1)).getD prev) := by
+  have _ := hold
+  induction l1 generalizing cur prev fuel with
+  | nil =>
+    obtain _ | f := fuel
+    · simp at hf
+    simp only [segFrom] at hseg
+    simp [predLoop, hseg]
+  | cons p t ih =>
+    obtain ⟨o, r⟩ := p
+    obtain _ | f := fuel
+    · simp at hf
+    obtain ⟨hc, ho, ⟨sz, hu⟩, ht⟩ := hseg
+    subst hc
+    have h1 : cur ≠ old := hne (cur, r) (by simp)
+    have hg := get_of_used kf cur sz r hu
+    unfold predLoop
+    simp only [h1, ho, or_self, if_false, hg]
+    rw [ih r.next cur f ht (fun p hp => hne p (by simp [hp])) (by simpa using hf)]
+    rw [getLast_cons_getD]
 
-/-- a freshly created map satisfies the invariant and is empty -/
-theorem init_inv (kt : KeyType) (n : Nat) (hn : 0 < n) : Inv kt (Store.init n) ∧ abs (Store.init n) = [] := by sorry
+theorem init_inv (kt : KeyType) (n : Nat) (hn : 0 < n) : Inv kt (Store.init n) ∧ abs (Store.init n) = [] := by
+  have hget : ∀ o, (Store.init n).kf.get o = none := fun o => rfl
+  have hused : ∀ o, (Store.init n).kf.used o = none := fun o => rfl
+  have hvused : ∀ o, (Store.init n).vf.used o = none := fun o => rfl
+  refine ⟨⟨hn, RecFile.WF.empty keyCfg, RecFile.WF.empty valCfg, fun _ _ => rfl, fun _ => rfl, ?_, ?_, ?_, ?_, ?_, ?_, ?_, rfl⟩, rfl⟩
+  · intro b _
+    exact ⟨[], rfl, by simp, by simp⟩
+  · intro o sz r h; rw [hused] at h; cases h
+  · intro o sz r h; rw [hused] at h; cases h
+  · intro o o' sz sz' r r' h; rw [hused] at h; cases h
+  · intro o sz r h; rw [hused] at h; cases h
+  · intro o o' sz sz' r r' h; rw [hused] at h; cases h
+  · intro vo vs v h; rw [hvused] at h; cases h
 
 end Store
 end Abyss
